@@ -132,6 +132,8 @@ namespace options
 
     void multi_option::prepare()
     {
+        value_.clear();
+        dirty_ = false;
     }
 
     void multi_option::check()
